@@ -382,6 +382,13 @@ func histConfig(g *pkgGen, i int) *genOut {
 		c.Contents = append(c.Contents, &files.Content{Destination: fmt.Sprintf("/var/lib/hist%d/complete", i), Type: "dir",
 			FileInfo: &files.ContentFileInfo{Owner: "svc", Group: "svc", Mode: 0o750, MTime: time.Unix(1500000000, 0).UTC()}})
 	}
+	// lists of different settings that name the same package (a packager may reconcile them - on its own copy)
+	if i%3 != 2 {
+		c.Depends = append(c.Depends, "shared-dep", "zz-last")
+		c.IPK.Predepends = append(c.IPK.Predepends, "shared-dep")
+		c.Deb.Predepends = append(c.Deb.Predepends, "shared-dep")
+		c.Recommends = append(c.Recommends, "shared-dep")
+	}
 	for _, f := range allFormats {
 		if _, has := c.Overrides[f]; !has && g.rng.Intn(2) == 0 {
 			ov := &nfpm.Overridables{}
